@@ -16,7 +16,8 @@ subprocess.run(cmd, cwd=repo, env=env, stdout=subprocess.DEVNULL, stderr=subproc
 passed = set()
 for tc in ET.parse(xml).getroot().iter("testcase"):
     if not any(ch.tag in ("failure", "error", "skipped") for ch in tc):
-        passed.add(f"{tc.get('classname')}::{tc.get('name')}")
+        # parametrised ids of a few tests embed the absolute repository path
+        passed.add(f"{tc.get('classname')}::{tc.get('name')}".replace(os.path.realpath(repo), "/repo").replace(repo.rstrip("/"), "/repo"))
 os.unlink(xml)
 missing = sorted(want - passed)
 print(f"baseline stable_pass={len(want)} passed_now={len(passed)} missing={len(missing)} extra_passing={len(passed - want)}")
